@@ -34,7 +34,7 @@ def plan(tier):
 
 
 def n_cases(tier):
-    return 3000 if tier == 'thorough' else 150
+    return 12000 if tier == 'thorough' else 200
 
 
 def one_case(rng, tier):
